@@ -56,6 +56,9 @@ type wholeStructLoc struct {
 }
 type mapLoc struct{ m Term }
 
+// streamLoc: the concrete bit-stream object held in an interface value (all fields of both stream types).
+type streamLoc struct{ ref Term }
+
 func (x *Exec) contractEnvAtEntry(st *State, fr *Frame, c *Contract) *specEnv {
 	env := &specEnv{x: x, st: st, vars: map[string]Val{}, where: "entry of " + c.Key}
 	for _, p := range fr.fn.Params {
@@ -162,6 +165,29 @@ func (x *Exec) checkFrame(st *State, fr *Frame, c *Contract, at string) {
 			}
 		case mapLoc:
 			mapsAll = true
+		case streamLoc:
+			for _, tn := range []string{"bufBitStream", "randomBitStream"} {
+				nt := x.namedType(tn)
+				su := under(nt).(*types.Struct)
+				for i := 0; i < su.NumFields(); i++ {
+					x.flattenField(st, l.ref, su, tn, i, allowed)
+				}
+			}
+			mapsAll = true
+			// the element arrays the stream pointed to at entry
+			for _, tn := range []string{"bufBitStream", "randomBitStream"} {
+				rb := st.embRef(tn, "recordedBits", l.ref)
+				rsu := under(x.namedType("recordedBits")).(*types.Struct)
+				for i := 0; i < rsu.NumFields(); i++ {
+					if sl, ok := under(rsu.Field(i).Type()).(*types.Slice); ok {
+						cur := st.loadField(st.entry, rb, rsu, "recordedBits", i).(*SliceV)
+						keys, _, _ := st.elemKeys(sl.Elem())
+						for _, k := range keys {
+							elemsAllowed[k] = append(elemsAllowed[k], cur.Arr)
+						}
+					}
+				}
+			}
 		}
 	}
 	for k, refs := range st.interfered {
@@ -783,6 +809,27 @@ func (x *Exec) evalCall(env *specEnv, n *ast.CallExpr, hint types.Type, cl *Clau
 			return x.retag(v, tn.Type())
 		}
 	}
+	if uf, ok := x.specs.UFuns[fname]; ok {
+		need(len(uf.Args))
+		st.declareOnce("ufun_"+uf.Name, "(declare-fun "+uf.Name+" ("+strings.Join(uf.Args, " ")+") "+uf.Ret+")")
+		var ts []Term
+		for k := range uf.Args {
+			var h types.Type
+			if isBV(uf.Args[k]) {
+				h = types.Typ[types.Uint64]
+			}
+			t := arg(k, h)
+			if t.Sort != uf.Args[k] {
+				x.specFail(cl, "%s: argument %d has sort %s, want %s", fname, k, t.Sort, uf.Args[k])
+			}
+			ts = append(ts, t)
+		}
+		r := app(uf.Ret, nil, uf.Name, ts...)
+		if isBV(uf.Ret) {
+			r.Typ = types.Typ[types.Uint64]
+		}
+		return r
+	}
 	if d, ok := x.specs.Defines[fname]; ok {
 		need(len(d.Params))
 		sub := *env
@@ -817,6 +864,29 @@ func (x *Exec) evalCall(env *specEnv, n *ast.CallExpr, hint types.Type, cl *Clau
 		a := x.evalTerm(env, n.Args[1], hint, cl)
 		b := x.evalTerm(env, n.Args[2], a.Typ, cl)
 		return tIte(c, a, b)
+	case "forallu", "existsu":
+		// forallu(x, body): x ranges over all uint64 values
+		need(2)
+		id, ok := n.Args[0].(*ast.Ident)
+		if !ok {
+			x.specFail(cl, "%s: first argument must be an identifier", fname)
+		}
+		bv := Term{S: id.Name + "!q", Sort: sBV(64), Typ: types.Typ[types.Uint64]}
+		sub := *env
+		sub.bound = map[string]Term{}
+		for k, v := range env.bound {
+			sub.bound[k] = v
+		}
+		sub.bound[id.Name] = bv
+		save := st.x.noDef
+		st.x.noDef = true
+		body := x.evalBool(&sub, n.Args[1], cl)
+		st.x.noDef = save
+		q := "forall"
+		if fname == "existsu" {
+			q = "exists"
+		}
+		return Term{S: "(" + q + " ((" + bv.S + " (_ BitVec 64))) " + body.S + ")", Sort: sBool}
 	case "trig":
 		// uninterpreted marker used only to steer quantifier instantiation (see forallp)
 		need(1)
@@ -898,6 +968,20 @@ func (x *Exec) evalCall(env *specEnv, n *ast.CallExpr, hint types.Type, cl *Clau
 			}
 		}
 		x.specFail(cl, "len of %s", exprStr(n.Args[0]))
+	case "deref", "hasType":
+		// deref(x, T): the *T held in interface value x; hasType(x, T): x holds a *T
+		need(2)
+		id, ok := n.Args[1].(*ast.Ident)
+		if !ok {
+			x.specFail(cl, "%s(x, TypeName)", fname)
+		}
+		pt := types.NewPointer(x.namedType(id.Name))
+		v := arg(0, nil)
+		if fname == "hasType" {
+			tag := fmt.Sprint(x.typeTag(pt))
+			return Term{S: "(and ((_ is any_ref) " + v.S + ") (= (any_ref_tag " + v.S + ") " + tag + "))", Sort: sBool}
+		}
+		return Term{S: "(any_ref_v " + v.S + ")", Sort: sRef, Typ: pt}
 	case "now":
 		// current value of a variable of the function (a parameter may have been re-assigned)
 		need(1)
@@ -1075,6 +1159,17 @@ func (x *Exec) evalLoc(env *specEnv, loc string, c *Contract) Val {
 	}
 	if strings.HasPrefix(loc, "map(") && strings.HasSuffix(loc, ")") {
 		return mapLoc{}
+	}
+	if strings.HasPrefix(loc, "stream(") && strings.HasSuffix(loc, ")") {
+		e, err := parseExprCached(loc[7 : len(loc)-1])
+		if err != nil {
+			x.specFail(cl, "bad location %s", loc)
+		}
+		v := x.evalTerm(env, e, nil, cl)
+		if v.Sort == sAny {
+			return streamLoc{ref: Term{S: "(any_ref_v " + v.S + ")", Sort: sRef}}
+		}
+		return streamLoc{ref: v}
 	}
 	if strings.HasPrefix(loc, "all(") && strings.HasSuffix(loc, ")") {
 		e, err := parseExprCached(loc[4 : len(loc)-1])
